@@ -703,8 +703,8 @@ func (x *rx) selectRules(where string, g *cfgq.Graph, start cfgq.Point, head *cf
 	// (and recorded) there
 	handsDB := func(n ast.Node) bool {
 		for _, call := range cfgq.ExecCalls(n) {
-			if h := x.c.FnOf(c07.CalleeF(x.info, call)); h == nil || h.Decl.Body == nil {
-				continue
+			if h := x.c.FnOf(c07.CalleeF(x.info, call)); h == nil || h.Decl.Body == nil || !strings.Contains(h.Pkg.PkgPath, "redis-shake") || strings.HasSuffix(h.Pkg.PkgPath, "/log") {
+				continue // only the program's own helpers can send commands on its connections
 			}
 			for _, a := range call.Args {
 				if isDB(a) || isTr(a) {
